@@ -20,6 +20,8 @@ def plan(ctx):
     for key, ms in sorted(groups.items(), key=str):
         for m in rnd.sample(ms, min(2, len(ms))):
             quick.add(m["name"])
+    # all encoder reset pairs are cheap (about 20 s): every rate transition and target shape on every change
+    quick.update(m["name"] for m in fam if m["kind"] == "reset")
     for m in fam:
         tiers = ("quick", "thorough") if m["name"] in quick else ("thorough",)
         if m["kind"] == "new":
